@@ -99,16 +99,36 @@ class DispatchLimit(Exception):
     """Raised by parse_bounded when the tree-construction dispatcher was entered more often than the limit."""
 
 
+STALL = 5000
+
+
 class _BoundedLog(list):
-    def __init__(self, limit):
+    def __init__(self, limit, parser=None):
         list.__init__(self)
         self.limit = limit
         self.n = 0
+        self.parser = parser
+        self.pos = None
+        self.still = 0
 
     def append(self, x):
         self.n += 1
         if self.n > self.limit:
             raise DispatchLimit("%d dispatches; last: %r" % (self.n, x))
+        # second, much quicker criterion: thousands of dispatches in a row during which the tokenizer consumed no input.
+        # One token is legitimately re-dispatched a handful of times (once per phase it is handed to), never thousands.
+        try:
+            st = self.parser.tokenizer.stream
+            pos = (id(st.chunk), st.chunkOffset)
+        except AttributeError:
+            pos = None
+        if pos is not None and pos == self.pos:
+            self.still += 1
+            if self.still > STALL:
+                raise DispatchLimit("%d dispatches in a row without consuming input (%d in all); last: %r" % (self.still, self.n, x))
+        else:
+            self.pos = pos
+            self.still = 0
         if len(self) < 50:
             list.append(self, x)
 
@@ -126,7 +146,7 @@ def parse_bounded(text, limit, builder="dom", namespace=True, scripting=False, c
     class P(html5lib.HTMLParser):
         def reset(self):
             html5lib.HTMLParser.reset(self)
-            self.log = _BoundedLog(limit)
+            self.log = _BoundedLog(limit, self)
 
     p = P(tree=tb, namespaceHTMLElements=namespace, debug=True)
     if container is None:
